@@ -286,8 +286,8 @@ def run_recursion():
             V.append(f"{label}: RecursionError instead of RuntimeError")
         except RuntimeError:
             pass
-        except Exception as e:  # noqa: BLE001
-            V.append(f"{label}: {type(e).__name__} instead of RuntimeError")
+        except Exception as exc:  # noqa: BLE001
+            V.append(f"{label}: {type(exc).__name__} instead of RuntimeError")
         else:
             V.append(f"{label}: no exception")
         finally:
@@ -311,8 +311,80 @@ def run_recursion():
     e = BlockSeries(shape=(2,), n_infinite=1, name="e")
     e.eval = lambda i, n: e[1 - i][n] if i == 0 else e[0, n]
     expect_runtime(lambda: e[0, 1], "e[0,n] := e[1][n], e[1,n] := e[0,n]")
+    # self reference through a Cauchy product: A_n = c + (A @ B)_n refers to itself as soon as B has a
+    # zeroth-order term; every position of the self-referring factor and block/scalar shapes
+    from operator import mul
+
+    from pymablock.series import cauchy_dot_product
+
+    prods = []
+    for shape, val in (((1, 1), lambda *i: 2.0), ((2, 2), lambda *i: np.array([[1.0, 2.0], [0.5, 1.0]]) + sum(i))):
+        op = mul if shape == (1, 1) else np.matmul
+        for position in ("left", "right", "middle"):
+            for b0 in (True, False):
+                nblk = shape[0]
+                bdata = {(i, j, n): val(i, j, n) for i in range(nblk) for j in range(nblk) for n in ((0, 1) if b0 else (1, 2))}
+                B = BlockSeries(data=bdata, shape=shape, n_infinite=1, name="B")
+                A = BlockSeries(shape=shape, n_infinite=1, name="A",
+                                data={(i, j, 0): val(i, j, 7) for i in range(nblk) for j in range(nblk)})
+                factors = {"left": (A, B), "right": (B, A), "middle": (B, A, B)}[position]
+                AB = cauchy_dot_product(*factors, operator=op)
+                A.eval = (lambda AB, val: lambda *index: AB[index] + val(*index))(AB, val)  # the zero sentinel only adds from the left
+                prods.append(A)
+                label = f"A[n] := c + ({' @ '.join(f.name for f in factors)})[n], shape {shape}, B_0 {'!= 0' if b0 else '== 0'}"
+                if b0 and position != "middle":
+                    expect_runtime(lambda A=A, nblk=nblk: A[0, nblk - 1, 2], label)
+                elif b0:
+                    expect_runtime(lambda A=A, nblk=nblk: A[nblk - 1, 0, 1], label)
+                else:
+                    # a proper recurrence (A_n only needs lower orders of A): must be answered, and equal the model
+                    scenarios += 1
+                    try:
+                        got = [A[0, 0, n] for n in range(4)]
+                    except Exception as exc:  # noqa: BLE001
+                        V.append(f"{label}: well-founded recurrence raises {type(exc).__name__}")
+                        continue
+                    dense = {}
+
+                    def ref(i, j, n, dense=dense, nblk=nblk, val=val, op=op, position=position, bdata=bdata):
+                        if (i, j, n) in dense:
+                            return dense[(i, j, n)]
+                        if n == 0:
+                            v = val(i, j, 7)
+                        else:
+                            v = val(i, j, n)
+                            Bv = lambda i, j, n: bdata.get((i, j, n))  # noqa: E731
+                            if position in ("left", "right"):
+                                for k_ in range(nblk):
+                                    for m_ in range(n + 1):
+                                        if position == "left":
+                                            y = Bv(k_, j, n - m_)
+                                            if y is not None:
+                                                v = v + op(ref(i, k_, m_), y)
+                                        else:
+                                            y = Bv(i, k_, n - m_)
+                                            if y is not None:
+                                                v = v + op(y, ref(k_, j, m_))
+                            else:
+                                for k1 in range(nblk):
+                                    for k2 in range(nblk):
+                                        for m1 in range(n + 1):
+                                            for m2 in range(n + 1 - m1):
+                                                y1, y2 = Bv(i, k1, m1), Bv(k2, j, n - m1 - m2)
+                                                if y1 is not None and y2 is not None:
+                                                    v = v + op(op(y1, ref(k1, k2, m2)), y2)
+                        dense[(i, j, n)] = v
+                        return v
+
+                    want = [ref(0, 0, n) for n in range(4)]
+                    if not all(np.allclose(g, w_) for g, w_ in zip(got, want)):
+                        V.append(f"{label}: well-founded recurrence through a product gives wrong values")
     # after the failed evaluation the series is usable again and no marker is left
     from pymablock.series import PENDING
+
+    for s in prods:
+        if any(v is PENDING for v in s._data.values()):
+            V.append(f"PENDING left in {s.name} after recursion error through a product")
 
     for s in (a, b, c, d, e):
         if any(v is PENDING for v in s._data.values()):
@@ -438,6 +510,32 @@ def run_api():
             V.append(f"shape={shape} ninf={ninf}: an element was evaluated twice")
         if data_in != given:
             V.append("the caller's data dictionary was modified")
+        # the same initial data shared by a data-only series (no eval), a series whose eval is attached later,
+        # and a fresh series: requests to one must not change the caller's dictionary nor the other series
+        shared = dict(given)
+        only = BlockSeries(data=shared, shape=shape, n_infinite=ninf, name="only")
+        later = BlockSeries(data=shared, shape=shape, n_infinite=ninf, name="later")
+        later.eval = lambda *index: zero if is_zero_index(index) else "L" + token(index)
+        for idx in all_idx:
+            n += 1
+            got = only[idx] if len(idx) > 1 else only[idx[0]]
+            want = given.get(idx, zero)
+            if got is not want and got != want:
+                V.append(f"shape={shape} ninf={ninf}: data-only series element {idx} is {got!r}, expected {want!r}")
+        for idx in all_idx:
+            n += 1
+            got = later[idx] if len(idx) > 1 else later[idx[0]]
+            want = given[idx] if idx in given else (zero if is_zero_index(idx) else "L" + token(idx))
+            if got is not want and got != want:
+                V.append(f"shape={shape} ninf={ninf}: element {idx} of a series sharing its initial data with another series is {got!r}, expected {want!r}")
+        if shared != given:
+            V.append(f"shape={shape} ninf={ninf}: the caller's data dictionary was modified by a series constructed without eval")
+        third = BlockSeries(eval=ev, data=shared, shape=shape, n_infinite=ninf, name="third")
+        for idx in all_idx[:6]:
+            got = third[idx] if len(idx) > 1 else third[idx[0]]
+            want = given[idx] if idx in given else (zero if is_zero_index(idx) else token(idx))
+            if got is not want and got != want:
+                V.append(f"shape={shape} ninf={ninf}: a later series built from the same data returns {got!r} for {idx}, expected {want!r}")
         # membership after evaluation: only known-zero elements are absent
         for idx in all_idx:
             want = not ((idx in given and given[idx] is zero) or (idx not in given and is_zero_index(idx)))
